@@ -368,4 +368,22 @@ def subsume (T : Table) (R : Ptr → Rat) (firstLeft : LeftSt) (firstRight : Sta
     let ptrs := firstLeft.pointers ++ v.written
     (adjust, { pointers := ptrs, full := makeFull || secondLeft.full || ptrs.length == T.order - 1 }, right')
 
+/-! ### the revelation protocols of `lm/partial_test.cc` (`CheckAdjustment`), one side at a time -/
+
+/-- reveal the pointers `k, k+1, …` of a following fragment's left state one at a time (`after.length = k+1`,
+`after.full = false`, `seen = k`), accumulating the adjustments -/
+def revealAfterLoop (T : Table) (R : Ptr → Rat) (ptrs : List Ptr) : Nat → Nat → LeftSt × State × Rat → LeftSt × State × Rat
+  | 0, _, st => st
+  | fuel+1, k, (left, right, acc) =>
+    let res := revealAfter T R left right { pointers := ptrs.take (k+1), full := false } k
+    revealAfterLoop T R ptrs fuel (k+1) (res.2.1, res.2.2, acc + res.1)
+
+/-- … and finally, if it is full, its `full` flag (`seen = after.length`) -/
+def revealAfterAll (T : Table) (R : Ptr → Rat) (between after : Chart) : LeftSt × State × Rat :=
+  let st := revealAfterLoop T R after.left.pointers after.left.length 0 (between.left, between.right, 0)
+  if after.left.full then
+    let res := revealAfter T R st.1 st.2.1 { pointers := after.left.pointers, full := true } after.left.length
+    (res.2.1, res.2.2, st.2.2 + res.1)
+  else st
+
 end KV.Left
